@@ -12,6 +12,11 @@ use sudachi::error::SudachiResult;
 
 static COUNTER: AtomicU64 = AtomicU64::new(0);
 
+/// root of the repository under test (always /repo for the registered checks)
+pub fn repo_root() -> PathBuf {
+    PathBuf::from(std::env::var("VH_REPO").unwrap_or_else(|_| "/repo".to_string()))
+}
+
 pub fn scratch_root() -> PathBuf {
     match std::env::var("VH_SCRATCH") {
         Ok(p) => PathBuf::from(p),
@@ -44,7 +49,7 @@ impl ResDir {
     pub fn standard() -> ResDir {
         let d = ResDir::new();
         for f in ["char.def", "unk.def", "rewrite.def"] {
-            let src = Path::new("/repo/resources").join(f);
+            let src = repo_root().join("resources").join(f);
             // read + write instead of fs::copy (which needs fchmod, unsupported by Miri)
             let data = std::fs::read(&src).expect("read resource");
             std::fs::write(d.path.join(f), data).expect("copy resource");
